@@ -346,6 +346,14 @@ func genCorpus(seed uint64, size int) *proto.Corpus {
 	// groups, thresholds after which another lookup structure is used, ...)
 	g.rangeFamilies()
 
+	// prefix families: identifiers that are a prefix of another identifier, long
+	// identifiers truncated and extended (fixed-size keys, hash prefixes, tries)
+	g.prefixFamilies()
+
+	// nesting families: an expression together with its sub-expressions and with
+	// expressions that contain it (caches keyed by sub-tree, shared expansions)
+	g.nestingFamilies()
+
 	// systematic spelling families: every way of writing one identifier (letter case of
 	// the id and of its -only / -or-later suffix, '+', WITH), through every function and
 	// in both argument positions. These are the inputs a sloppily keyed cache confuses.
@@ -602,5 +610,90 @@ func (g *corpusGen) rangeFamilies() {
 		}
 		g.add(proto.Call{Fn: proto.FnSatisfies, Expr: pick[0] + "+", List: []string{"MIT", pick[2]}, Fam: g.fam, Tag: "range"})
 		g.add(proto.Call{Fn: proto.FnSatisfies, Expr: "MIT OR " + pick[0] + "+", List: []string{pick[2]}, Fam: g.fam, Tag: "range"})
+	}
+}
+
+func (g *corpusGen) prefixFamilies() {
+	r := g.r
+	all := append(append(append([]string{}, g.active...), g.deprecated...), g.exceptions...)
+	type pair struct{ a, b string }
+	var pairs []pair
+	for _, a := range all {
+		if len(a) < 6 {
+			continue
+		}
+		la := strings.ToLower(a)
+		for _, b := range all {
+			if len(b) > len(a) && strings.HasPrefix(strings.ToLower(b), la) {
+				pairs = append(pairs, pair{a, b})
+			}
+		}
+	}
+	// all pairs whose common prefix is long, a seeded sample of the rest
+	var chosen []pair
+	for _, p := range pairs {
+		if len(p.a) >= 20 || r.p(0.08) {
+			chosen = append(chosen, p)
+		}
+	}
+	if len(chosen) > 60 {
+		chosen = chosen[:60]
+	}
+	addPair := func(a, b string) {
+		g.fam++
+		for _, x := range []string{a, b} {
+			g.add(proto.Call{Fn: proto.FnExtract, Expr: x, Fam: g.fam, Tag: "prefix"})
+			g.add(proto.Call{Fn: proto.FnValidate, List: []string{x}, Fam: g.fam, Tag: "prefix"})
+		}
+		g.add(proto.Call{Fn: proto.FnSatisfies, Expr: a, List: []string{b}, Fam: g.fam, Tag: "prefix"})
+		g.add(proto.Call{Fn: proto.FnSatisfies, Expr: b, List: []string{a}, Fam: g.fam, Tag: "prefix"})
+		g.add(proto.Call{Fn: proto.FnValidate, List: []string{a, b}, Fam: g.fam, Tag: "prefix"})
+	}
+	for _, p := range chosen {
+		addPair(p.a, p.b)
+	}
+	// long identifiers: truncations and bogus extensions
+	n := 0
+	for _, id := range all {
+		if len(id) < 24 || n >= 25 {
+			continue
+		}
+		n++
+		for _, v := range []string{id + "x", id + "-Of-Any-Kind", id + "-rev", id[:len(id)-1], id[:16], id[:len(id)/2]} {
+			addPair(id, v)
+		}
+		if len(id) > 32 {
+			addPair(id, id[:32])
+			addPair(id, id[:31])
+		}
+	}
+}
+
+func (g *corpusGen) nestingFamilies() {
+	for k := 0; k < 4; k++ {
+		g.fam++
+		ids := make([]string, 0, 5)
+		for len(ids) < 5 {
+			id := g.plainID()
+			if !contains(ids, id) {
+				ids = append(ids, id)
+			}
+		}
+		A, B, C, D, E := ids[0], ids[1], ids[2], ids[3], ids[4]
+		exprs := []string{
+			A + " AND " + B, "(" + A + " AND " + B + ") AND " + C, "(" + A + " AND " + B + ") AND (" + C + " OR " + D + ")",
+			C + " AND (" + A + " AND " + B + ")", "(" + A + " AND " + B + ") OR " + C, "(" + A + " OR " + B + ") AND " + C,
+			A + " OR " + B, "(" + A + " OR " + B + ") OR " + C, "((" + A + " AND " + B + ") AND " + C + ") AND " + D,
+			A + " AND " + B + " AND " + C, "(" + A + " AND " + B + ") AND " + E, "(" + A + " OR " + B + ") AND (" + C + " OR " + D + ")",
+			"(" + A + " OR " + B + ") AND " + E, A, C,
+		}
+		lists := [][]string{{A, B}, {A, B, C}, {A, C}, {B, C, D}, {A, B, C, D, E}}
+		for _, e := range exprs {
+			g.add(proto.Call{Fn: proto.FnExtract, Expr: e, Fam: g.fam, Tag: "nest"})
+			for _, l := range lists {
+				g.add(proto.Call{Fn: proto.FnSatisfies, Expr: e, List: l, Fam: g.fam, Tag: "nest"})
+			}
+		}
+		g.add(proto.Call{Fn: proto.FnValidate, List: exprs, Fam: g.fam, Tag: "nest"})
 	}
 }
